@@ -545,7 +545,22 @@ class _Model:
                 else:
                     ep.emit(k, p)
 
-            toks = [subj.subscribe(put, ep), subj.subscribe(put, ep)]
+            if self.mapper == "merge2":
+                toks = [subj.subscribe(put, ep), subj.subscribe(put, ep)]
+            else:  # late2: the second subscription of the shared sequence is made d ticks later (scheduled before the connect)
+                toks = [subj.subscribe(put, ep)]
+
+                def late():
+                    if ep.disposed or ep.stopped:
+                        return
+                    self.stats.add("late_sub_fired")
+                    if subj.kind == "replay" and subj.win is not None:
+                        by_buf = subj.queue if subj.buf is None else (subj.queue[-subj.buf:] if subj.buf else [])
+                        if any(self.ms.now - t > subj.win for t, _ in by_buf):
+                            self.stats.add("late_sub_window_dropped_items")
+                    toks.append(subj.subscribe(put, ep))
+
+                self.ms.schedule(self.ms.now + self.form["d"], late)
         h = conn.connect()
 
         def dispose():
@@ -624,6 +639,32 @@ def _merge2(c):
     return Observable(subscribe)
 
 
+def _late2(lab, d):
+    """A mapper result that subscribes the connectable at once and a second time d ticks later."""
+
+    def mapper(c):
+        def subscribe(observer, scheduler=None):
+            done = [0]
+            comp = CompositeDisposable()
+
+            def on_completed():
+                done[0] += 1
+                if done[0] == 2:
+                    observer.on_completed()
+
+            comp.add(c.subscribe(observer.on_next, observer.on_error, on_completed, scheduler=scheduler))
+
+            def action(s, st_=None):
+                comp.add(c.subscribe(observer.on_next, observer.on_error, on_completed, scheduler=scheduler))
+
+            comp.add(lab.sched.schedule_relative(lab.rel(d), action))
+            return comp
+
+        return Observable(subscribe)
+
+    return mapper
+
+
 _MAPPERS = {"id": lambda c: c, "merge2": _merge2}
 
 
@@ -686,7 +727,10 @@ class _Real:
         self.lab = lab = Lab(case.get("clock", "test"))
         self.src = src = lab.source(case["src"])
         base = form["base"]
-        mp = _MAPPERS[form["mapper"]] if form.get("mapper") else None
+        if form.get("mapper") == "late2":
+            mp = _late2(lab, form["d"])
+        else:
+            mp = _MAPPERS[form["mapper"]] if form.get("mapper") else None
         self.connectable = None
         if base == "share":
             o = src.pipe(ops.share())
@@ -867,7 +911,7 @@ def _run(case):
     alive = [True] * len(models)
     first_diff = None
     label = _label(form)
-    merge2 = form.get("mapper") == "merge2"
+    merge2 = form.get("mapper") in ("merge2", "late2")
 
     def step(cmd):
         op = cmd[0]
@@ -996,7 +1040,9 @@ def _form(draw, group):
     if group in ("refcount", "autoconnect") and draw(st.integers(0, 2)) == 0:
         f["mix"] = True  # explicit connect() calls on the underlying connectable are part of the history (never an explicit dispose)
     elif group == "mapper":
-        f["mapper"] = draw(st.sampled_from(["id", "merge2"]))
+        f["mapper"] = draw(st.sampled_from(["id", "merge2", "late2", "late2"]))
+        if f["mapper"] == "late2":
+            f["d"] = draw(st.integers(1, 4))
     return f
 
 
@@ -1074,6 +1120,8 @@ _ENUM_FORMS = [
     {"base": "replay", "buf": None, "win": 2, "wrap": "ref_count"},
     {"base": "publish", "wrap": "auto_connect", "n": 2},
     {"base": "publish", "mapper": "merge2"},
+    {"base": "replay", "buf": None, "win": 1, "mapper": "late2", "d": 2},
+    {"base": "replay", "buf": 2, "win": 2, "mapper": "late2", "d": 3},
     {"base": "publish", "wrap": "ref_count", "mix": True},
     {"base": "publish_value", "init": "i0", "wrap": "auto_connect", "n": 2, "mix": True},
 ]
